@@ -231,7 +231,18 @@ def run_case(c, rng):
             c.count('zero_demand_junctions')
             if any(abs(r) > 1e-12 for r in res):
                 c.violate('pdd_zero_demand_row_nonzero', 'junction %s requests 0 but its pdd row evaluates to %s' % (name, max(res, key=abs)), **wit)
-            continue
+                continue
+            # the requested demand is a parameter that is refreshed before every solve (patterns): a junction that requests nothing
+            # now must follow the curve as soon as it requests something - give the parameter a value and sweep the same row again
+            m.expected_demand[name].value = 1.0
+            res = []
+            for p in pts:
+                hv.value = j['elevation'] + p
+                res.append(float(m.evaluate_residuals()[row]))
+            m.expected_demand[name].value = 0.0
+            c.count('zero_demand_rows_swept_with_unit_demand')
+            D = 1.0
+            wit = dict(wit, requested_demand='0 when the model was built, 1.0 for the sweep')
         f = [-r / D for r in res]
         kind_before = len(c.violations)
         check_curve(c, 'junction %s (Pmin %.4g, Preq %.4g, exponent %s, %s)' % (name, pmin, preq, e, 'override' if is_over else 'global'),
